@@ -232,6 +232,25 @@ empty @is_you(int n, int k) {
 '''
 
 
+def write_deepest_programs():
+    """write(int) - which pushes its digits below the frame without a check of its own - as the DEEPEST point of a
+    function while stack arrays of each kind are live: the enclosing guards must have reserved the digit buffer"""
+    arrays = {
+        'int literal': 'int[] a = [x, x + 1, x + 2];',
+        'byte literal': "byte[] b = ['p', x is byte, 'q']; int[] a = [x, x + 1, x + 2];",
+        'dynamic': 'int a[3]; a[0] = x; a[1] = x + 1; a[2] = x + 2;',
+        'const literal with run-time elements': 'const int[] a = [x, x + 1, x + 2];',
+        'two literals': 'int[] z = [x]; int[] a = [x, x + 1, x + 2];',
+    }
+    body = "write(a[2]); write(' '); write(a[1]); write(' '); write(-a[2]); write(' '); writeln(a[0]);"
+    for an, decl in arrays.items():
+        yield f'write-deepest main/{an}', UTIL + f'empty @is_you(int x) {{ {decl} {body} }}\n'
+        yield f'write-deepest callee/{an}', UTIL + f'empty f(int x) {{ {decl} {body} }}\nempty @is_you(int x) {{ f(x); f(x + 1); }}\n'
+        yield f'write-deepest nested block/{an}', UTIL + f'empty @is_you(int x) {{ if (x != 1) {{ {decl} {{ {body} }} }} write(x); }}\n'
+        yield (f'write-deepest try body/{an}',
+               UTIL + f"empty @is_you(int x) {{ try {{ {decl} {body} !truth_is_defeat(x == 1); }} stop {{ write('s'); }} write(x); }}\n")
+
+
 def byref_program():
     return UTIL + r'''
 empty fill(int[] dst, const byte[] src, int off) {
@@ -289,6 +308,9 @@ def cases(seed, count):
         out.append(('leak', leak_program(), [str(n), str(k)]))
     for n, m in ((3, 1), (10, 1), (10, 3), (24, 3), (24, 5), (9, 2)):
         out.append(('defeat-leak', defeat_leak_program(), [str(n), str(m)]))
+    for tag, src in write_deepest_programs():
+        for n in (12343, -12343, -32768 + 2, 7):
+            out.append((tag, src, [str(n)]))
     for n in (0, 7, -1, 9999, -32768, 32767, 12345):
         out.append(('stdlib', stdlib_program(), [str(n), str(r.choice([0, 7, 8, 19]))]))
     for n in (0, 3, 8, 22):
